@@ -40,6 +40,30 @@ ALLOWED = {
 }
 
 
+def _released_not_returned(T, b, t):
+    """Where the return slot is assigned, on a path after call `t`, from something other than t's result."""
+    from ..cfg import cfg_of
+    from ..dataflow import defuse
+    from ..facts import Place
+    cfg = cfg_of(b)
+    du = defuse(b)
+    if t.target is None:
+        return None
+    after = set(cfg.reachable(t.target))
+    ret = Place({"l": 0, "p": []})
+    bad = []
+    sites = [x for x in du.all_defs(0) if x[1] in after or (x[0] == "c" and x[1] == t.bb)]
+    if not sites:
+        return "no assignment of the return slot after the call"
+    for site in sites:
+        bb = site[1]
+        idx = site[2] + 1 if site[0] == "a" else len(b.blocks[bb].stmts) + 1
+        o = T.origins(b, bb, idx, ret)
+        if not o or not all(x.kind == "call" and x.term is t for x in o):
+            bad.append("%s (%s)" % ("bb%d" % bb, ", ".join(sorted({repr(x) for x in o}))[:160]))
+    return "; ".join(bad) if bad else None
+
+
 def r1_escape_hatches(ctx):
     F = ctx.facts
     T = ctx.tracer
@@ -88,6 +112,12 @@ def r1_escape_hatches(ctx):
                 ok = bool(o) and all(x.kind == "param" and x.detail == 1 for x in o)
                 if not ok:
                     out.append(violated("C11.R1", key, t.where(), "into_raw_fd on something other than the value being returned"))
+                    continue
+                # ... and once released, the number is what the function returns: every assignment of the return
+                # slot on a path after the call is the call's own result (otherwise the descriptor has no owner left)
+                lost = _released_not_returned(T, b, t)
+                if lost:
+                    out.append(violated("C11.R1", key, t.where(), "the descriptor released by into_raw_fd is not what is returned on a path after the call (return slot assigned at %s)" % lost))
                     continue
             if hatch == "Box::leak":
                 impls = [i["self_ty"] for i in F.impls_of("capi::utils::Leakable")]
